@@ -4,10 +4,12 @@
 changed tree, archive everything under /verif/seeded/<Cxx>/ and remove the scratch worktree."""
 import json, os, shutil, subprocess, sys, time
 
-prop = sys.argv[1]
-wt = f'/tmp/seed/{prop}'
+name = sys.argv[1]            # Cxx or Cxx<tag> (second and later rounds: C01b, C01c ...)
+prop = name[:3]
+wt = f'/tmp/seed/{name}'
 out = f'{wt}/seed_out'
-dst = f'/verif/seeded/{prop}'
+dst = f'/verif/seeded/{name}'
+tier = 'thorough' if '--thorough' in sys.argv else 'quick'
 env = dict(os.environ, PYTHONPATH=f'{wt}/src')
 
 
@@ -30,7 +32,7 @@ rc_t, o_t = sh(['/verif/tools/repo_tests.py', wt])
 meta['suite_with_change'] = o_t.strip().split('\n')[0]
 # check against the changed tree
 t0 = time.time()
-rc_c, o_c = sh(['./check', prop, 'quick'], cwd='/verif', env=dict(os.environ, VERIF_REPO=wt))
+rc_c, o_c = sh(['./check', prop, tier], cwd='/verif', env=dict(os.environ, VERIF_REPO=wt))
 meta['check_with_change'] = {'exit': rc_c, 'wall_s': round(time.time() - t0, 1),
                              'lines': [l for l in o_c.split('\n') if l.startswith('VIOLATION') or 'failing input' in l or 'broken obligation' in l or l.startswith(prop)][:8]}
 replay = None
@@ -53,7 +55,7 @@ for para in notes.split('\n\n'):
     if 'manifest' in para.lower() or 'trigger' in para.lower() or 'needed' in para.lower():
         meta['needs_to_manifest'] = para.strip()[:900]
         break
-meta['ran'] = [f'PYTHONPATH=<wt>/src python demo.py (both ways)', f'tools/repo_tests.py <wt>', f'VERIF_REPO=<wt> ./check {prop} quick']
+meta['ran'] = [f'PYTHONPATH=<wt>/src python demo.py (both ways)', f'tools/repo_tests.py <wt>', f'VERIF_REPO=<wt> ./check {prop} {tier}']
 os.makedirs(dst, exist_ok=True)
 for fn in ('patch.diff', 'demo.py', 'notes.md'):
     if os.path.exists(f'{out}/{fn}'):
